@@ -12,5 +12,7 @@ pub mod subs_env;
 pub mod client_faults;
 #[cfg(feature = "fam-client")]
 pub mod client_mock;
+#[cfg(feature = "fam-client")]
+pub mod client_spell;
 #[cfg(feature = "fam-conn")]
 pub mod server_env;
